@@ -405,14 +405,14 @@ func c07ErrExpr(rng *RNG) string {
 		}
 		d := "-"
 		if rng.Chance(1, 4) {
-			d = tok(pick(rng, []string{`{"a":1}`, `[1, 2]`, `"s"`, `null`, `{ "x" : [ ] }`, `0`}))
+			d = tok(pick(rng, []string{`{"a":1}`, `[1, 2]`, `"s"`, `null`, `{ "x" : [ ] }`, `0`, `{"n":9007199254740993}`, `18446744073709551615`, `[0.1234567890123456789, 1.0, 1e2, -0]`, `{"a":1,"a":2}`, `"\u00e9\ud83d\ude00<>&"`, "\"\u2028 \u2029\u202a\xe2\x80\"", "[\"\\\\<\", \"\\\"\u2029\"]"}))
 		}
 		base = "W " + tok(s.Code()) + " " + tok(m) + " " + d
 	default:
 		code := pick(rng, []string{"CUSTOM", "MY_CODE", "", "lower_case", "X", "UNKNOWN", "A_B_C"})
 		d := "-"
 		if rng.Chance(1, 4) {
-			d = tok(pick(rng, []string{`{"a":1}`, `[1, 2]`, `null`}))
+			d = tok(pick(rng, []string{`{"a":1}`, `[1, 2]`, `null`, `{"big":123456789012345678901234567890}`, `1.10`}))
 		}
 		base = "W " + tok(code) + " " + tok(pick(rng, msgs)) + " " + d
 	}
@@ -697,11 +697,46 @@ func jsonEqual(a, b string) bool {
 	if a == "" || b == "" {
 		return a == b
 	}
-	var x, y bytes.Buffer
-	if json.Compact(&x, []byte(a)) != nil || json.Compact(&y, []byte(b)) != nil {
+	// Same JSON value: the same token stream, strings compared after unescaping (a hop may write < as \u003c),
+	// numbers compared as written (so a hop that re-encodes through float64 is seen), duplicate keys kept.
+	ta, ok1 := jsonTokens(a)
+	tb, ok2 := jsonTokens(b)
+	if !ok1 || !ok2 || len(ta) != len(tb) {
 		return false
 	}
-	return x.String() == y.String()
+	for i := range ta {
+		if ta[i] != tb[i] {
+			return false
+		}
+	}
+	return true
+}
+
+func jsonTokens(s string) ([]string, bool) {
+	dec := json.NewDecoder(strings.NewReader(s))
+	dec.UseNumber()
+	var out []string
+	for {
+		t, err := dec.Token()
+		if err == io.EOF {
+			return out, true
+		}
+		if err != nil {
+			return nil, false
+		}
+		switch v := t.(type) {
+		case json.Delim:
+			out = append(out, "d"+string(rune(v)))
+		case json.Number:
+			out = append(out, "n"+string(v))
+		case string:
+			out = append(out, "s"+v)
+		case bool:
+			out = append(out, fmt.Sprint("b", v))
+		case nil:
+			out = append(out, "null")
+		}
+	}
 }
 
 func (*c07) NonTrivial(c Case, impl []string) (bool, string) {
